@@ -40,6 +40,9 @@ def variants():
     return {
         "two": {"cells": [(0, 0, 0), (1, 0, 0)]},
         "three": {"cells": [(0, 0, 0), (1, 0, 0), (2, 0, 0)]},
+        # the same boxes added to the mesh inside a Shape (operations of shapes can be deleted one by one)
+        "shape3": {"cells": [(0, 0, 0), (1, 0, 0), (2, 0, 0)], "bundle": [[0, 1, 2]]},
+        "mixed3": {"cells": [(0, 0, 0), (1, 0, 0), (2, 0, 0)], "bundle": [[0], [1, 2]]},
     }
 
 
@@ -55,6 +58,8 @@ def cases(tier, seed):
     for var in variants():
         evs = events_for(var)
         for e1 in evs:
+            if tier == "quick" and "bundle" in variants()[var] and e1[0] not in "DAW":
+                continue
             for e2 in evs:
                 out.append({"variant": var, "prefix": [e1, e2], "depth": depth})
     return out
@@ -168,6 +173,34 @@ def make_ops(model_pts, patches):
     return ops
 
 
+def add_entities(mesh, ops, bundle):
+    """ops either directly or grouped into Shapes"""
+    import classy_blocks as cb
+
+    if not bundle:
+        for op in ops:
+            mesh.add(op)
+        return
+
+    class Bundle(cb.Shape):
+        def __init__(self, members):
+            self._ops = members
+
+        @property
+        def operations(self):
+            return self._ops
+
+        @property
+        def grid(self):
+            return [self._ops]
+
+    for group in bundle:
+        if len(group) == 1:
+            mesh.add(ops[group[0]])
+        else:
+            mesh.add(Bundle([ops[i] for i in group]))
+
+
 def do_mod(mesh, ev):
     if ev == "P":
         mesh.modify_patch("inlet", "wall", ["inGroups (a b)", "value 3"])
@@ -193,8 +226,7 @@ def replay(variant, history):
     model = Model(variant)
     mesh = cb.Mesh()
     ops = make_ops(model.pts, model.patches)
-    for op in ops:
-        mesh.add(op)
+    add_entities(mesh, ops, variants()[variant].get("bundle"))
     writes = []
     for k, ev in enumerate(history):
         live = [i for i in range(model.n) if i not in model.deleted]
